@@ -72,3 +72,28 @@ Proof.
       repeat (destruct Hy as [<-|Hy]; [simpl; lia|]); try contradiction.
   - vm_compute. reflexivity.
 Qed.
+
+(* ---- tie C: the statements about the code itself ----
+   g_merged_fetch_forward / g_buffered_fetch are the Gallina translations of the SOURCE TEXT of
+   _MergedWithin._fetch_forward and _Buffered.fetch, regenerated from /repo on every run
+   (Gen/Source.v); [src] is the source timeline's fetch, arbitrary. *)
+From CG Require Import Gen.Source Proofs.GenEq.
+
+Theorem C17_source_merge_is_model : forall src g a b,
+  g_merged_fetch_forward src g a b = mw g (src a b false).
+Proof. exact g_merged_fetch_forward_eq. Qed.
+Print Assumptions C17_source_merge_is_model.
+
+Theorem C17_source_buffer_is_model : forall src before after a b rv,
+  g_buffered_fetch src before after a b rv =
+  map (buf_shift before after) (src (addO a (- after)) (addO b before) rv).
+Proof. exact g_buffered_fetch_eq. Qed.
+Print Assumptions C17_source_buffer_is_model.
+
+(* so the merge_within spec holds of what the code says now, for any source answering with a
+   well-formed stream sorted by start *)
+Theorem C17_source_merge_within_spec : forall src g a b,
+  0 <= g -> Forall wf_ivl (src a b false) -> Forall canon_ivl (src a b false) -> sorted_start (src a b false) ->
+  mw_spec_ok g (src a b false) (g_merged_fetch_forward src g a b) = true.
+Proof. intros src g a b Hg H1 H2 H3. rewrite g_merged_fetch_forward_eq. apply mw_spec; assumption. Qed.
+Print Assumptions C17_source_merge_within_spec.
